@@ -143,10 +143,112 @@ fn check_case(ctx: &Ctx, cfg: &Config, ops: &[Op]) {
     }
 }
 
+
+// ---------------------------------------------------------------------------------------------
+// E2: call ORDERS the fixed honest schedule never uses. Explicit-state BFS (stateright, implementation in the loop)
+// in which the honest session advances step by step and, between its steps, up to `devs` other calls are made:
+// the raw-split query by either party, set_psk (supplying a PSK the builder was not given, or re-supplying one it
+// was), a write into a buffer one byte short, a read of the genuine message into an empty payload buffer. Every
+// message, the handshake hash, the payload-encrypted flag and every raw-split answer is compared with the full
+// reference model, which follows the same calls.
+
+fn e2_spec(p: &Proto, late_psk: bool, devs: usize) -> crate::engine::seqmc::SeqSpec {
+    use crate::exec::{APhase, Cap, Exec, Msg, SIDES};
+    use std::sync::Arc;
+    let mut cfg = cfg_of(p, &default_var(), Backend::Default);
+    cfg.record = true;
+    if late_psk {
+        for q in &p.psks {
+            cfg.psks[0][usize::from(*q)] = None;
+            cfg.psks[1][usize::from(*q)] = None;
+        }
+    }
+    let dirs: Vec<Side> = if p.pattern.is_oneway() { vec![Side::I, Side::I] } else { vec![Side::I, Side::R] };
+    // stateful transport on both sides: every honest step must change the state (a stateless read is a self-loop
+    // that state merging would cut, see 10.9)
+    let honest: Vec<Op> = sess::full_session_ops(p, &[3, 0, 17, 5], Mode::TT, &dirs, &[4, 0]).into_iter().filter(|o| !matches!(o, Op::RawSplit { .. })).collect();
+    let psks: Vec<usize> = p.psks.iter().map(|q| usize::from(*q)).collect();
+    let hh = honest.clone();
+    let alphabet = Arc::new(move |e: &Exec| {
+        let mut a: Vec<(Op, bool)> = vec![];
+        let done = e.steps.iter().filter(|s| s.real.is_ok() && hh.contains(&s.op)).count();
+        if let Some(next) = hh.get(done) {
+            a.push((next.clone(), false));
+        }
+        for s in SIDES {
+            let ab = &e.abs[s.idx()];
+            if ab.phase != APhase::Hs {
+                continue;
+            }
+            for loc in &psks {
+                // supplying a missing PSK is part of the honest run; re-supplying the same one is a deviation
+                a.push((Op::SetPsk { side: s, loc: *loc, klen: 32 }, ab.psk_set[*loc]));
+            }
+            a.push((Op::RawSplit { side: s }, true));
+            let my_turn = (ab.pos % 2 == 0) == s.is_init();
+            if ab.pos < e.proto.n_msgs() {
+                if my_turn {
+                    a.push((Op::HsWrite { side: s, plen: 3, cap: Cap::NeedPlus(-1) }, true));
+                } else if e.wires[s.peer().idx()].len() > ab.pos / 2 {
+                    a.push((Op::HsRead { side: s, msg: Msg::Last(s.peer()), cap: Cap::Exact(0) }, true));
+                }
+            }
+        }
+        a
+    });
+    let hh2 = honest.clone();
+    let judge = Arc::new(move |e: &Exec| {
+        let mut v: Vec<(String, String)> = sess::filter(e, &CATS).into_iter().map(|m| (format!("{} (unusual call order)", sess::signature(e, m)), format!("{}: {}", e.cfg.name, m.detail))).collect();
+        for (k, st) in e.steps.iter().enumerate() {
+            if hh2.contains(&st.op) && !st.real.is_ok() && matches!(st.expect, crate::exec::Expect::Ok(_)) {
+                v.push((format!("honest session step failed at {} (unusual call order)", sess::op_kind(&st.op)), format!("{}: step {k} {:?} -> {}", e.cfg.name, st.op, st.real.short())));
+                break;
+            }
+        }
+        v
+    });
+    let total = honest.len();
+    let hh3 = honest;
+    let goal = Arc::new(move |e: &Exec| e.steps.iter().filter(|s| s.real.is_ok() && hh3.contains(&s.op)).count() >= total);
+    let extra = if late_psk { 2 * p.psks.len() } else { 0 };
+    crate::engine::seqmc::SeqSpec { cfg, prefix: vec![], max_depth: total + devs + extra, max_devs: devs, alphabet, judge, goal }
+}
+
+fn e2(ctx: &Ctx) {
+    let devs = if ctx.quick() { 2 } else { 3 };
+    let suites = patterns::all_suites();
+    let mut specs = vec![];
+    for (k, b) in patterns::base_patterns().iter().enumerate() {
+        let (dh, c, h) = suites[k % suites.len()];
+        if ctx.quick() && dh == refnoise::DhAlg::P256 && k % 3 != 0 {
+            // P-256 costs ~10x per DH: a third of those in the quick tier, on the 25519 twin of the suite otherwise
+            let p = Proto::new(b, &[], refnoise::DhAlg::X25519, c, h).unwrap();
+            specs.push((e2_spec(&p, false, devs), p.name.clone()));
+        } else {
+            let p = Proto::new(b, &[], dh, c, h).unwrap();
+            specs.push((e2_spec(&p, false, devs), p.name.clone()));
+        }
+        // a psk variant, its PSKs supplied through set_psk during the exploration (any order, any time before use)
+        let (_, c2, h2) = suites[(k + 5) % suites.len()];
+        let last = b.msgs.len() as u8;
+        let q = Proto::new(b, &[[0u8, 1, last][k % 3].min(last)], refnoise::DhAlg::X25519, c2, h2).unwrap();
+        specs.push((e2_spec(&q, true, devs.min(2)), format!("{} (psk through set_psk)", q.name)));
+    }
+    specs.par_iter().for_each(|(s, label)| {
+        let r = crate::engine::seqmc::explore(s.clone());
+        if std::env::var("C01_DEBUG").is_ok() && !r.goal_reached {
+
+            eprintln!("{label}: states {} transitions {} max_depth {} (bound {}) outcomes {:?}", r.states, r.transitions, r.max_depth, s.max_depth, r.outcomes);
+        }
+        super::common::absorb(ctx, s, &r, label);
+    });
+    ctx.count("e2_explorations", specs.len() as u64);
+}
+
 pub fn run(tier: Tier) -> i32 {
     let ctx = Ctx::new("C01", tier, "model_checking");
     ctx.bind_model();
-    ctx.set_rule("case = (protocol name, key set, prologue, payload lengths, transport mode, rng mode, psks given to the builder / through set_psk / given although the name has no psk modifier); every message, handshake hash and payload-encrypted flag compared with refnoise; non-trivial = the honest session ran to completion (handshake + 8 transport messages) with every step compared; states = distinct cases");
+    ctx.set_rule("case = (protocol name, key set, prologue, payload lengths, transport mode, rng mode, psks given to the builder / through set_psk / given although the name has no psk modifier); every message, handshake hash and payload-encrypted flag compared with refnoise; non-trivial = the honest session ran to completion (handshake + 8 transport messages) with every step compared; states = distinct cases; plus an explicit-state BFS per base pattern (and a psk variant whose PSKs arrive through set_psk) over call orders: the honest session with up to 2 (thorough 3) other calls - raw-split query, set_psk, failing write / read - at any points, every step against the full reference model");
     let all = patterns::all_protos();
     ctx.set("names", json!(all.len()));
     // part 1: all 13 344 names, default vector, default backend
@@ -224,6 +326,8 @@ pub fn run(tier: Tier) -> i32 {
         });
         ctx.count("psk_supplied_late_or_unused_cases", suite.len() as u64);
     }
+    // part 2c: unusual call orders (explicit-state search)
+    e2(&ctx);
     // part 3 (thorough): pairs of changes on NAMES/suite
     if !ctx.quick() {
         let suite = patterns::all_protos_for_suite(refnoise::DhAlg::X25519, refnoise::CipherAlg::AesGcm, refnoise::HashAlg::Sha512);
